@@ -10,7 +10,7 @@ SRC = "/tmp/seed"
 DST = "/verif/seeded"
 os.makedirs(DST, exist_ok=True)
 rows = []
-for rnd, outs, ress, suffix in ((1, "out", "results", ""), (2, "out2", "results2", "2"), (3, "out3", "results3", "3"), (4, "out4", "results4", "4"), (5, "out5", "results5", "5"), (6, "out6", "results6", "6"), (7, "out7", "results7", "7")):
+for rnd, outs, ress, suffix in ((1, "out", "results", ""), (2, "out2", "results2", "2"), (3, "out3", "results3", "3"), (4, "out4", "results4", "4"), (5, "out5", "results5", "5"), (6, "out6", "results6", "6"), (7, "out7", "results7", "7"), (8, "out8", "results8", "8")):
     for i in range(1, 20):
         pid = f"C{i:02d}"
         mp = f"{SRC}/{pid}.{outs}/meta.json"
